@@ -47,6 +47,21 @@ def run_draws(rep, tier, awkward, own, pid, ndraws):
             continue
         traces.append(ev)
         meta.append(info)
+        # the same (already fitted) estimator must also fit other valid data: one feature less, same hyperparameters
+        ps = {p["name"]: p["val"] for p in case["params"]}
+        d = X.shape[1]
+        if case["i"] % 3 == 0 and d >= 2 and not (ps.get("groups") == "pair01" and d - 1 < 2) and ps.get("groups") != "all_single" \
+                and ps.get("feature_mask", "none") == "none" and not info["decorated"]:
+            with _p.quiet():
+                try:
+                    model.fit(np.asarray(X)[:, : d - 1], y)
+                    bad = train.coherence(model, np.asarray(X)[:, : d - 1], y)
+                except Exception as e:
+                    bad = [f"raised {type(e).__name__}: {e}"]
+            rep.case((case["est"], json.dumps(case["params"]), "refit-narrower"))
+            if bad:
+                rep.violation(f"second fit of the same estimator on data with one feature less: {bad} -- {info}", {"case": case, "info": info},
+                              tags=("refit", info["est"]))
     missing = [e for e in ("LinearModel", "LinearMMD", "LinearWasserstein", "RIM", "KernelRIM", "MLPModel", "MLPMMD", "MLPWasserstein",
                            "SparseLinearModel", "SparseLinearMMD", "SparseLinearMI", "SparseMLPModel", "SparseMLPMMD", "CategoricalModel",
                            "CategoricalMMD", "CategoricalWasserstein", "Douglas", "Kauri") if seen_est[e] == 0]
